@@ -47,27 +47,207 @@ Theorem xresp_send_short_header_discards fx s a m :
   xresp_send (pm_hdr m) = None -> xresp_step fx s (PSend None a false m) = (s, [Complete a E_OK None; Free m]).
 Proof. intros H. cbn [xresp_step andb]. now rewrite H. Qed.
 
+(* ---- the upper read queue: invariant of the repaired msgqueue.c ---- *)
+(* blocked readers mean: nothing queued, no writer waiting; blocked writers mean: the queue is full.
+   The second half is what e654d99 (aio_get runs the writers) and 65cda67 (resize runs both) establish. *)
+Definition UInv (u : urq) : Prop :=
+  (uq_readers u <> [] -> uq_q u = [] /\ uq_writers u = []) /\
+  (uq_writers u <> [] -> uq_cap u <= length (uq_q u)).
+
+Lemma run_putq_inv : forall f u, length (uq_writers u) < f -> (uq_readers u <> [] -> uq_q u = []) ->
+  UInv (fst (run_putq f u)) /\ uq_cap (fst (run_putq f u)) = uq_cap u /\
+  (uq_readers u = [] -> uq_readers (fst (run_putq f u)) = []).
+Proof.
+  induction f as [|f IH]; intros u Hf Hq; [lia|]. cbn [run_putq].
+  destruct (uq_writers u) as [|[p m] ws] eqn:W.
+  - cbn [fst]. split; [|auto]. split; [intros R; split; auto|rewrite W; congruence].
+  - cbn [length] in Hf. destruct (uq_readers u) as [|a rs] eqn:R.
+    + destruct (length (uq_q u) <? uq_cap u) eqn:L.
+      * specialize (IH (mkUrq (uq_q u ++ [m]) (uq_cap u) [] ws)). cbn [uq_writers uq_readers uq_q uq_cap] in IH.
+        destruct (run_putq f (mkUrq (uq_q u ++ [m]) (uq_cap u) [] ws)) as [u' o]. cbn [fst] in *.
+        destruct IH as (A & B & C); [lia|congruence|]. auto.
+      * cbn [fst]. apply Nat.ltb_ge in L. split; [|auto]. split; [rewrite R; congruence|auto].
+    + specialize (IH (mkUrq (uq_q u) (uq_cap u) rs ws)). cbn [uq_writers uq_readers uq_q uq_cap] in IH.
+      destruct (run_putq f (mkUrq (uq_q u) (uq_cap u) rs ws)) as [u' o]. cbn [fst] in *.
+      destruct IH as (A & B & C); [lia|intros _; apply Hq; congruence|]. split; [auto|]. split; [auto|discriminate].
+Qed.
+Lemma run_getq_inv : forall f u, length (uq_readers u) < f ->
+  (uq_readers (fst (run_getq f u)) <> [] -> uq_q (fst (run_getq f u)) = [] /\ uq_writers (fst (run_getq f u)) = []) /\
+  uq_cap (fst (run_getq f u)) = uq_cap u.
+Proof.
+  induction f as [|f IH]; intros u Hf; [lia|]. cbn [run_getq].
+  destruct (uq_readers u) as [|a rs] eqn:R; [cbn [fst]; rewrite R; split; [congruence|auto]|]. cbn [length] in Hf.
+  destruct (uq_q u) as [|m q'] eqn:Q.
+  - destruct (uq_writers u) as [|[p m] ws] eqn:W.
+    + cbn [fst]. split; auto.
+    + specialize (IH (mkUrq [] (uq_cap u) rs ws)). cbn [uq_readers uq_cap] in IH.
+      destruct (run_getq f (mkUrq [] (uq_cap u) rs ws)) as [u' o]. cbn [fst] in *. apply IH. lia.
+  - specialize (IH (mkUrq q' (uq_cap u) rs (uq_writers u))). cbn [uq_readers uq_cap] in IH.
+    destruct (run_getq f (mkUrq q' (uq_cap u) rs (uq_writers u))) as [u' o]. cbn [fst] in *. apply IH. lia.
+Qed.
+Lemma run_getq_idle f u : (uq_readers u <> [] -> uq_q u = [] /\ uq_writers u = []) -> run_getq f u = (u, []).
+Proof.
+  intros H. destruct f; [reflexivity|]. cbn [run_getq]. destruct (uq_readers u) eqn:R; [reflexivity|].
+  destruct H as [A B]; [congruence|]. now rewrite A, B.
+Qed.
+
+Lemma uinv_init : UInv urq_init. Proof. split; cbn; intros H; congruence. Qed.
+(* a pipe's message put to the queue (xsurv0/xresp0 recv_cb -> nni_msgq_aio_put) *)
+Theorem uinv_put u p m : UInv u -> UInv (fst (urq_put u p m)) /\ uq_cap (fst (urq_put u p m)) = uq_cap u.
+Proof.
+  intros [A B]. unfold urq_put.
+  destruct (run_putq_inv (S (length (uq_writers (mkUrq (uq_q u) (uq_cap u) (uq_readers u) (uq_writers u ++ [(p, m)])))))
+                         (mkUrq (uq_q u) (uq_cap u) (uq_readers u) (uq_writers u ++ [(p, m)]))) as (X & Y & _).
+  - lia.
+  - cbn. intros R. now apply A.
+  - split; [exact X|exact Y].
+Qed.
+(* a user receive with the repair e654d99: from ANY queue state the result satisfies the invariant *)
+Theorem uinv_get fx u a : mf_getput fx = true -> UInv (fst (urq_get_fx fx u a)) /\ uq_cap (fst (urq_get_fx fx u a)) = uq_cap u.
+Proof.
+  intros G. unfold urq_get_fx, urq_get. rewrite G.
+  set (u0 := mkUrq (uq_q u) (uq_cap u) (uq_readers u ++ [a]) (uq_writers u)).
+  destruct (run_getq_inv (S (length (uq_readers u0))) u0 ltac:(lia)) as [X Y].
+  destruct (run_getq (S (length (uq_readers u0))) u0) as [u1 o1]. cbn [fst] in X, Y.
+  destruct (run_putq_inv (S (length (uq_writers u1))) u1 ltac:(lia)) as (P & Q & _).
+  - intros R. now apply X.
+  - destruct (run_putq (S (length (uq_writers u1))) u1) as [u2 o2]. cbn [fst] in *. split; [exact P|]. rewrite Q, Y. reflexivity.
+Qed.
+(* ... which the pinned nni_msgq_aio_get does not: a reader takes the buffered message and the blocked writer
+   keeps waiting although there is room now *)
+Theorem raw_get_leaves_writer_blocked_refuted :
+  exists u a, UInv u /\ ~ UInv (fst (urq_get_fx mqfix_none u a)) /\ UInv (fst (urq_get_fx mqfix_all u a)).
+Proof.
+  exists (mkUrq [mkPmsg [] [1%N]] 1 [] [(5%N, mkPmsg [] [2%N])]), 1%N. split; [|split].
+  - split; cbn; [congruence|lia].
+  - cbn. intros [_ B]. cbn in B. specialize (B ltac:(discriminate)). lia.
+  - apply uinv_get. reflexivity.
+Qed.
+Theorem uinv_resize fx u n : mf_resize fx = true -> UInv u -> UInv (fst (urq_resize fx u n)).
+Proof.
+  intros G [A B]. unfold urq_resize. rewrite G.
+  set (u1 := mkUrq (skipn (length (uq_q u) - (n + 1)) (uq_q u)) n (uq_readers u) (uq_writers u)).
+  destruct (run_putq_inv (S (length (uq_writers u1))) u1 ltac:(lia)) as (P & Q & _).
+  - cbn. intros R. destruct (A R) as [E _]. rewrite E. now rewrite skipn_nil.
+  - destruct (run_putq (S (length (uq_writers u1))) u1) as [u2 o2]. cbn [fst] in *.
+    rewrite (run_getq_idle _ u2 (proj1 P)). cbn [fst]. exact P.
+Qed.
+Lemma uinv_cancel u a rv : UInv u -> UInv (fst (urq_cancel u a rv)).
+Proof.
+  intros [A B]. unfold urq_cancel. destruct (has_id a (uq_readers u)); cbn [fst]; [|split; auto].
+  split; cbn; [|exact B]. intros R. apply A. intros E. rewrite E in R. now apply R.
+Qed.
+Lemma uinv_drop_writer u p : UInv u -> UInv (fst (urq_drop_writer u p)).
+Proof.
+  intros [A B]. unfold urq_drop_writer. cbn [fst]. split; cbn.
+  - intros R. destruct (A R) as [E1 E2]. now rewrite E1, E2.
+  - intros W. apply B. intros E. rewrite E in W. now apply W.
+Qed.
+Lemma uinv_close u : UInv (fst (urq_close u)).
+Proof. unfold urq_close. cbn. split; cbn; congruence. Qed.
+Lemma uinv_user_recv fx u a nb : mf_getput fx = true -> UInv u -> UInv (fst (urq_user_recv fx u a nb)).
+Proof. intros G H. unfold urq_user_recv. destruct (nb && _); [exact H|]. now apply uinv_get. Qed.
+Lemma uinv_setopt fx ttl u uw c op : mf_resize fx = true -> UInv u ->
+  UInv (snd (fst (fst (raw_setopt fx ttl u uw c op)))).
+Proof.
+  intros G H. unfold raw_setopt. destruct c; [destruct op; exact H|]. destruct op; try exact H.
+  - destruct (_ <? _)%N; exact H.
+  - destruct (_ <? _)%N; [exact H|]. pose proof (uinv_resize fx u n G H) as R. destruct (urq_resize fx u n). exact R.
+  - destruct (_ && _); exact H.
+Qed.
+(* every step of the raw surveyor / raw respondent keeps it, given the two msgqueue.c repairs *)
+Theorem xsurv_urq_inv fx s o s' outs : mf_resize fx = true -> mf_getput fx = true ->
+  UInv (xs_urq s) -> xsurv_step fx s o = (s', outs) -> UInv (xs_urq s').
+Proof.
+  intros G1 G2 H St. destruct o as [c a nb m|c a nb|a rv|p peer|p|p rv|p rv m|c op|c|c| |now]; cbn [xsurv_step] in St.
+  - destruct (nb && _); [inversion St; subst; exact H|]. destruct (xfanout m (xs_pipes s)). inversion St; subst. exact H.
+  - pose proof (uinv_user_recv fx (xs_urq s) a nb G2 H) as R. destruct (urq_user_recv fx (xs_urq s) a nb). inversion St; subst. exact R.
+  - pose proof (uinv_cancel (xs_urq s) a rv H) as R. destruct (urq_cancel (xs_urq s) a rv). inversion St; subst. exact R.
+  - destruct (negb _); inversion St; subst; exact H.
+  - destruct (kget p (xs_pipes s)); [|inversion St; subst; exact H].
+    pose proof (uinv_drop_writer (xs_urq s) p H) as R. destruct (urq_drop_writer (xs_urq s) p). inversion St; subst. exact R.
+  - destruct (kget p (xs_pipes s)); [|inversion St; subst; exact H]. destruct (xpipe_sent p x rv). inversion St; subst. exact H.
+  - destruct (negb _); [inversion St; subst; exact H|]. destruct (xsurv_recv (pm_body m)); try (inversion St; subst; exact H).
+    destruct (kget p (xs_pipes s)) as [x|]; [|inversion St; subst; exact H]. destruct (xp_closed x); [inversion St; subst; exact H|].
+    pose proof (uinv_put (xs_urq s) p (mkPmsg (pm_hdr m ++ hdr) body) H) as [R _]. destruct (urq_put _ _ _). inversion St; subst. exact R.
+  - pose proof (uinv_setopt fx (xs_ttl s) (xs_urq s) (xs_uwcap s) c op G1 H) as R.
+    destruct (raw_setopt fx (xs_ttl s) (xs_urq s) (xs_uwcap s) c op) as [[[t u] w] o1]. inversion St; subst. exact R.
+  - inversion St; subst; exact H.
+  - inversion St; subst; exact H.
+  - pose proof (uinv_close (xs_urq s)) as R. destruct (urq_close (xs_urq s)). inversion St; subst. exact R.
+  - inversion St; subst; exact H.
+Qed.
+Theorem xresp_urq_inv fx s o s' outs : mf_resize fx = true -> mf_getput fx = true ->
+  UInv (xr_urq s) -> xresp_step fx s o = (s', outs) -> UInv (xr_urq s').
+Proof.
+  intros G1 G2 H St. destruct o as [c a nb m|c a nb|a rv|p peer|p|p rv|p rv m|c op|c|c| |now]; cbn [xresp_step] in St.
+  - destruct (nb && _); [inversion St; subst; exact H|]. destruct (xresp_send (pm_hdr m)) as [[id h]|]; [|inversion St; subst; exact H].
+    destruct (kget id (xr_pipes s)) as [x|]; [|inversion St; subst; exact H]. destruct (xp_closed x); [inversion St; subst; exact H|].
+    destruct (xpipe_tryput _ _ _ _). inversion St; subst. exact H.
+  - pose proof (uinv_user_recv fx (xr_urq s) a nb G2 H) as R. destruct (urq_user_recv fx (xr_urq s) a nb). inversion St; subst. exact R.
+  - pose proof (uinv_cancel (xr_urq s) a rv H) as R. destruct (urq_cancel (xr_urq s) a rv). inversion St; subst. exact R.
+  - destruct (negb _); inversion St; subst; exact H.
+  - destruct (kget p (xr_pipes s)); [|inversion St; subst; exact H].
+    pose proof (uinv_drop_writer (xr_urq s) p H) as R. destruct (urq_drop_writer (xr_urq s) p). inversion St; subst. exact R.
+  - destruct (kget p (xr_pipes s)); [|inversion St; subst; exact H]. destruct (xpipe_sent p x rv). inversion St; subst. exact H.
+  - destruct (negb _); [inversion St; subst; exact H|]. destruct (xresp_recv p (xr_ttl s) (pm_body m)); try (inversion St; subst; exact H).
+    destruct (kget p (xr_pipes s)) as [x|]; [|inversion St; subst; exact H]. destruct (xp_closed x); [inversion St; subst; exact H|].
+    pose proof (uinv_put (xr_urq s) p (mkPmsg (pm_hdr m ++ hdr) body) H) as [R _]. destruct (urq_put _ _ _). inversion St; subst. exact R.
+  - pose proof (uinv_setopt fx (xr_ttl s) (xr_urq s) (xr_uwcap s) c op G1 H) as R.
+    destruct (raw_setopt fx (xr_ttl s) (xr_urq s) (xr_uwcap s) c op) as [[[t u] w] o1]. inversion St; subst. exact R.
+  - inversion St; subst; exact H.
+  - inversion St; subst; exact H.
+  - pose proof (uinv_close (xr_urq s)) as R. destruct (urq_close (xr_urq s)). inversion St; subst. exact R.
+  - inversion St; subst; exact H.
+Qed.
+
 (* ---- NONBLOCK on the upper read queue ---- *)
 (* repaired msgqueue.c: EAGAIN exactly when the receive would have to wait, and then nothing changes *)
+Lemma run_putq_keeps f : forall u, uq_readers u = [] -> uq_readers (fst (run_putq f u)) = [].
+Proof.
+  induction f as [|f IH]; intros u R; [exact R|]. cbn [run_putq]. destruct (uq_writers u) as [|[p m] ws]; [exact R|].
+  rewrite R. destruct (_ <? _); [|exact R].
+  specialize (IH (mkUrq (uq_q u ++ [m]) (uq_cap u) [] ws) eq_refl). destruct (run_putq f _). exact IH.
+Qed.
+Theorem urq_nb_recv_immediate_fx fx u a u' outs : mf_nb fx = true ->
+  urq_user_recv fx u a true = (u', outs) ->
+  (urq_get_waits u = true -> u' = u /\ outs = [Complete a E_AGAIN None]) /\
+  (urq_get_waits u = false -> exists m r, outs = Complete a E_OK (Some m) :: r /\ uq_readers u' = []).
+Proof.
+  intros NB. unfold urq_user_recv. rewrite NB. cbn [negb orb andb]. destruct (urq_get_waits u) eqn:W; intros H.
+  - inversion H; subst. split; [auto|discriminate].
+  - split; [discriminate|]. intros _. unfold urq_get_waits in W. apply orb_false_iff in W as [W1 W2].
+    destruct (uq_readers u) eqn:R; [|discriminate]. unfold urq_get_fx, urq_get in H. rewrite R in H. cbn [app length run_getq uq_readers] in H.
+    assert (K: forall u1 m r0, uq_readers u1 = [] ->
+              (if mf_getput fx then let (u2, o2) := run_putq (S (length (uq_writers u1))) u1 in (u2, (Complete a E_OK (Some m) :: r0) ++ o2)
+               else (u1, Complete a E_OK (Some m) :: r0)) = (u', outs) ->
+              exists m' r, outs = Complete a E_OK (Some m') :: r /\ uq_readers u' = []).
+    { intros u1 m r0 R1 E. destruct (mf_getput fx).
+      - pose proof (run_putq_keeps (S (length (uq_writers u1))) u1 R1) as KK. destruct (run_putq _ u1) as [u2 o2]. inversion E; subst. cbn. eauto.
+      - inversion E; subst. eauto. }
+    destruct (uq_q u) as [|m q'] eqn:Q.
+    + destruct (uq_writers u) as [|[p m] ws] eqn:Wr; [cbn in W2; discriminate|]. cbn [uq_readers uq_q uq_writers uq_cap] in H.
+      eapply (K (mkUrq [] (uq_cap u) [] ws) m [TranRecv p]); [reflexivity|exact H].
+    + cbn [uq_readers uq_q uq_writers uq_cap] in H. eapply (K (mkUrq q' (uq_cap u) [] (uq_writers u)) m []); [reflexivity|exact H].
+Qed.
 Theorem urq_nb_recv_immediate u a u' outs :
   urq_user_recv mqfix_all u a true = (u', outs) ->
   (urq_get_waits u = true -> u' = u /\ outs = [Complete a E_AGAIN None]) /\
   (urq_get_waits u = false -> exists m r, outs = Complete a E_OK (Some m) :: r /\ uq_readers u' = []).
-Proof.
-  unfold urq_user_recv. cbn [mqfix_all mf_nb negb orb andb]. destruct (urq_get_waits u) eqn:W; intros H.
-  - inversion H; subst. split; [auto|discriminate].
-  - split; [discriminate|]. intros _. unfold urq_get_waits in W. apply orb_false_iff in W as [W1 W2].
-    destruct (uq_readers u) eqn:R; [|discriminate]. unfold urq_get in H. rewrite R in H. cbn [app length run_getq uq_readers] in H.
-    destruct (uq_q u) as [|m q'] eqn:Q.
-    + destruct (uq_writers u) as [|[p m] ws] eqn:Wr; [cbn in W2; discriminate|]. cbn in H. inversion H; subst. eauto.
-    + cbn in H. inversion H; subst. eauto.
-Qed.
+Proof. apply urq_nb_recv_immediate_fx. reflexivity. Qed.
 (* pinned msgqueue.c (nni_aio_start first): a message is queued, the descriptor raised, NONBLOCK receive = EAGAIN *)
 Theorem urq_nb_recv_refuted :
   exists u a, urq_recvable u = true /\ urq_get_waits u = false /\ urq_user_recv mqfix_none u a true = (u, [Complete a E_AGAIN None]).
 Proof. exists (mkUrq [mkPmsg [] [1%N]] 1 [] []), 1%N. repeat split. Qed.
 (* the receive descriptor of the raw sockets (evaluated by run_notify when fetched) mirrors "would not wait",
    as long as no reader is blocked (a blocked reader means: nothing is there) *)
+(* on every reachable state of the repaired queue (UInv) the mirror is exact *)
+Theorem urq_recvable_mirror_inv u : UInv u -> urq_recvable u = negb (urq_get_waits u).
+Proof.
+  intros [A _]. unfold urq_recvable, urq_get_waits. destruct (uq_readers u) eqn:R; cbn [isnil negb orb].
+  - destruct (uq_q u), (uq_writers u); reflexivity.
+  - destruct A as [E1 E2]; [congruence|]. now rewrite E1, E2.
+Qed.
 Theorem urq_recvable_mirror u : uq_readers u = [] -> urq_recvable u = negb (urq_get_waits u).
 Proof.
   intros R. unfold urq_recvable, urq_get_waits. rewrite R. cbn [isnil negb orb].
@@ -96,3 +276,26 @@ Proof.
   induction l as [|[p x] l IH]; cbn [xfanout snd map]; [auto|]. intros H. inversion H as [|? ? [C B] Hr]; subst. cbn [snd] in C, B.
   specialize (IH Hr). destruct (xfanout m l) as [r o]. cbn [snd] in IH. rewrite C. unfold xpipe_tryput. rewrite C, B. cbn [negb snd app fst]. now rewrite IH.
 Qed.
+
+(* ---- the receive descriptor of the raw sockets: exact mirror on every state satisfying the invariant ---- *)
+Theorem xsurv_poll_r_mirror fx s a : mf_nb fx = true -> UInv (xs_urq s) ->
+  (poll_r (xsurv_poll s) = Some true <-> snd (xsurv_step fx s (PRecv None a true)) <> [Complete a E_AGAIN None]).
+Proof.
+  intros NB H. cbn [xsurv_poll poll_r xsurv_step]. rewrite (urq_recvable_mirror_inv _ H).
+  destruct (urq_user_recv fx (xs_urq s) a true) as [u' o] eqn:E. cbn [snd].
+  destruct (urq_nb_recv_immediate_fx fx _ _ _ _ NB E) as [A B]. destruct (urq_get_waits (xs_urq s)); cbn [negb].
+  - destruct (A eq_refl) as [_ ->]. split; [discriminate|congruence].
+  - destruct (B eq_refl) as (m & r & -> & _). split; [intros _; discriminate|reflexivity].
+Qed.
+Theorem xresp_poll_r_mirror fx s a : mf_nb fx = true -> UInv (xr_urq s) ->
+  (poll_r (xresp_poll s) = Some true <-> snd (xresp_step fx s (PRecv None a true)) <> [Complete a E_AGAIN None]).
+Proof.
+  intros NB H. cbn [xresp_poll poll_r xresp_step]. rewrite (urq_recvable_mirror_inv _ H).
+  destruct (urq_user_recv fx (xr_urq s) a true) as [u' o] eqn:E. cbn [snd].
+  destruct (urq_nb_recv_immediate_fx fx _ _ _ _ NB E) as [A B]. destruct (urq_get_waits (xr_urq s)); cbn [negb].
+  - destruct (A eq_refl) as [_ ->]. split; [discriminate|congruence].
+  - destruct (B eq_refl) as (m & r & -> & _). split; [intros _; discriminate|reflexivity].
+Qed.
+(* the send descriptor of the raw sockets is always raised and a NONBLOCK send is always accepted (repaired) *)
+Theorem xsurv_poll_w_mirror s : poll_w (xsurv_poll s) = Some true. Proof. reflexivity. Qed.
+Theorem xresp_poll_w_mirror s : poll_w (xresp_poll s) = Some true. Proof. reflexivity. Qed.
